@@ -402,7 +402,7 @@ Qed.
 
 Lemma used_slots_sum counts : Forall (fun n => 0 <= n)%Z counts -> (zsum counts < 2^63)%Z ->
   used_slots counts = zsum counts.
-Proof. intros H Hb. unfold used_slots. rewrite used_slots_gen; auto; lia. Qed.
+Proof. intros H Hb. unfold used_slots, total_slots. rewrite used_slots_gen; auto; lia. Qed.
 
 Lemma zsum_nonneg counts : Forall (fun n => 0 <= n)%Z counts -> (0 <= zsum counts)%Z.
 Proof. induction 1; cbn [zsum fold_right]; [lia|]. fold (zsum l). lia. Qed.
